@@ -70,6 +70,11 @@ def find_collector(fx):
 
 
 def run(fx, rep):
+    # accumulators stay invisible only if the macro's cond/step/result are evaluated in the scope that binds them and the
+    # result is evaluated after the loop on every normal exit: C11 R3, C10 R2
+    from .report import producer_rules
+    producer_rules(fx, rep, 'producer rule: the comprehension evaluates loop_cond, loop_step and result in the inner scope that binds the accumulator (C11 R3, C10 R2)',
+                   [('c11', 'C11', r'^R3/'), ('c10', 'C10', r'^R2/(result-after-loop|every-normal-exit|.*accu_var)')], 6)
     rep.rule('R1', 'every expression-typed field of every Expr variant reaches a recursive collector call; the evaluator evaluates only such fields')
     rep.rule('R2', 'name sinks of the collector cover the two UndeclaredReference sources of the evaluator')
     rep.rule('R3', 'macro accumulators are "@"-prefixed')
